@@ -220,7 +220,10 @@ Section Handler.
            if response: self.work.queue(response); return True *)
         match exn_response (agent cfg) e with
         | Some (x :: t) => (queue_h h1 (x :: t) (Some e), HOk true)
-        | _ => (set_exc h1 (Proto e), HOk true)
+        | _ =>
+            (* no response: the connection is dropped.  (ghost) remembered as the reason of the
+               close unless the 400 of _parse_first_request is already queued *)
+            ((if is_nil (hq h1) then set_exc h1 (Proto e) else h1), HOk true)
         end
     | HErr (Other e) => (h1, HErr (Other e))
     | HOk b => (h1, HOk b)
@@ -322,7 +325,7 @@ Section Handler.
   (* exactly one response queued by the handler, teardown requested *)
   Definition rejected (h : handler) : bool :=
     match hq h with [_] => true | _ => false end &&
-    is_none (exc h) && (must_flush h || torn h) && negb (client_gone h).
+    is_none (exc h) && (must_flush h || torn h).
 
   (* the connection ends without any response of the handler's making: a non-protocol
      exception after parsing, or a protocol exception whose response() is None *)
